@@ -156,7 +156,8 @@ def coq_eval(mod, prop, cases, outs, tag='cases', shard=None):
     if not triples:
         return 0, [], [], skipped
     n, bad, errors = coqio.eval_shards(os.path.join(WORK, prop), mod.COQ_HEADER, mod.COQ_RUNNER, triples,
-                                       shard=shard or getattr(mod, 'SHARD', 400), tag=tag)
+                                       shard=shard or getattr(mod, 'SHARD', 400), tag=tag,
+                                       ctype=getattr(mod, 'COQ_TYPES', None))
     return n, bad, errors, skipped
 
 
